@@ -17,7 +17,7 @@ ID = "C07"
 LEVEL = "exploration"
 RULE = (
     "corpus fonts with a Unicode cmap + outlines (quick: every font outside the AOTS family + a seeded sample of 60 of the 200 AOTS fonts, 5 requests each, "
-    "8 for variable fonts; thorough: all fonts x 40 requests) x seeded requests (unicodes / text / glyph names / gids / "
+    "8 for variable fonts, 10 for fonts with >= 250 glyphs; thorough: all fonts x 40 requests) x seeded requests (unicodes / text / glyph names / gids / "
     "mixtures; sizes 1, few, a fraction, nearly all, all; drawn from the font's cmap and glyph order, half of them read off the inputs of the "
     "font's own GSUB/GPOS rules; plus unmapped unicodes) x option vector (layout_features default | '*' | random subset of the font's tags; "
     "layout_scripts '*' | subset; retain_gids; notdef_outline; notdef_glyph (TrueType only); recommended_glyphs; glyph_names; hinting; "
@@ -1116,6 +1116,8 @@ def jobs(tier, seed):
         k = n
         if tier != "thorough" and corpus.entry(fid)["variable"]:
             k = n + 3  # variable fonts are few and small: HVAR/VVAR/gvar/FeatureVariations paths need the extra requests
+        elif tier != "thorough" and corpus.entry(fid)["numGlyphs"] >= 250:
+            k = n + 5  # the few large fonts carry the rich layout (mark filtering sets, many scripts, MATH)
         J.append(dict(kind="font", name=fid, fid=fid, seed=seed, tier=tier, n=k))
     return J
 
